@@ -7,10 +7,11 @@ import (
 	"sort"
 	"strings"
 
-	"github.com/go-text/typesetting/font"
-	ot "github.com/go-text/typesetting/font/opentype"
 	hbdata "github.com/go-text/typesetting-utils/harfbuzz"
 	otdata "github.com/go-text/typesetting-utils/opentype"
+	"github.com/go-text/typesetting/font"
+	ot "github.com/go-text/typesetting/font/opentype"
+	"github.com/go-text/typesetting/font/opentype/tables"
 )
 
 type File struct {
@@ -93,4 +94,17 @@ func Fonts(f *File) (out []*font.Font) {
 		}()
 	}
 	return out
+}
+
+// Axes returns the variation axes of every face of a file (nil for static fonts).
+func Axes(ld *ot.Loader) []tables.VariationAxisRecord {
+	raw, err := ld.RawTable(ot.MustNewTag("fvar"))
+	if err != nil {
+		return nil
+	}
+	fv, _, err := tables.ParseFvar(raw)
+	if err != nil {
+		return nil
+	}
+	return fv.FvarRecords.Axis
 }
